@@ -101,6 +101,7 @@ UNITS = [
     ("CircularQueue", "__init__"), ("CircularQueue", "clear"), ("CircularQueue", "dequeue"), ("CircularQueue", "enqueue"),
     ("CircularQueue", "maintain_last_element"),
     ("AccuracyQueue", "__init__"), ("AccuracyQueue", "clear"), ("AccuracyQueue", "dequeue"), ("AccuracyQueue", "enqueue"),
+    ("AccuracyQueue", "maintain_last_element"),
     ("CircularMean", "__init__"), ("CircularMean", "update"),
     ("PrequentialError", "__init__"), ("PrequentialError", "__call__"), ("PrequentialError", "reset"),
     ("CUSUMConfig", "__init__"), ("PageHinkleyConfig", "__init__"), ("GeometricMovingAverageConfig", "__init__"),
@@ -127,7 +128,7 @@ _HIST = ["EqStats.v", "EqCusum.v", "EqSPC.v", "EqHDDM.v", "EqHDDMW.v", "EqRDDM.v
          "EqSTEPD.v", "EqKSWIN.v", "EqBOCD.v"]  # the last three carry their own warm-up / reset-is-fresh theorems (src_*_warmup_and_reset, src_stepd_run)
 EQ = {
     "C01": _HIST,  # constant-stream silence over the generated code, for every update/reset history
-    "C18": ["EqStats.v", "EqSrcStats.v"],
+    "C18": ["EqStats.v", "EqSrcStats.v", "EqAQ.v"],
     "C07": ["EqStats.v", "EqCusum.v"],
     "C19": ["EqStats.v", "EqConfig.v"],
     "C02": _HIST,  # reset() = where a fresh history starts, over the generated code
